@@ -18,7 +18,7 @@ Not decided: unitarity of the reflectors, exact tridiagonal form, accuracy.
 from __future__ import annotations
 
 from qstatic.alg import Poly, SQ, SC, P
-from qstatic.dom_sym import sym_quat, arrays_same, first_diff, mk, SymArr
+from qstatic.dom_sym import sym_quat, arrays_same, first_diff, mk, SymArr, wrap
 from qstatic.interp import FALLTHROUGH, RepoRaise, ModelError
 from .common import new_interp, ref_matmul, ref_hermitian, run_guarded, short
 
@@ -238,6 +238,9 @@ def run(ctx):
         ctx.ob("C08.D2.wrappers", f.name, st == "ok" and out == ("VALS", "VECS")[idx], "wrapper returns the wrong component",
                where=f.where, construct=f"{f.name} wrapper", loc=f.loc())
 
+    # ------------------------------------------------------------------ D5 Householder vector / matrix
+    _check_householder(ctx, prog)
+
     ctx.require_instances("C08.D1.solver", 3)
     ctx.require_instances("C08.D2.similarity", 3)
     ctx.require_instances("C08.D2.backtransform", 3)
@@ -268,3 +271,109 @@ def _vecs_match(vecs, Pq, Vlab, n):
         if arrays_same(vecs, ref_matmul(PH, VB)):
             return True
     return False
+
+
+def _check_householder(ctx, prog, RULE="C08.D5.reflector"):
+    """householder_vector(a, v) for a column vector a and real unit target v:
+         alpha = ||a||_F;  alpha == 0  ->  (0, 1)   [the ONLY path that may return the zero vector: H = I]
+         romega = sum(a*v), r = |romega|, zeta = -romega/r (r != 0) or 1 (r == 0)
+         u = (a - (zeta v) alpha) / sqrt(alpha (alpha + r))
+       householder_matrix: H = (1/zeta) (I - u u^H) (column case), identity when ||v|| == 0.
+       A zero leading entry (r == 0) with a non-zero tail must still produce a proper reflector."""
+    import numpy as np
+    from qstatic.dom_sym import sym_real
+    from .common_nc import cond_parts
+    f_hv = prog.func("decomp.tridiagonalize", "householder_vector")
+    f_hm = prog.func("decomp.tridiagonalize", "householder_matrix")
+    ctx.touch(f_hv)
+    ctx.touch(f_hm)
+    k = 3
+    for alpha_zero in (False, True):
+        for r_zero in (False, True):
+            log = []
+
+            def chooser(interp, node, cond, alpha_zero=alpha_zero, r_zero=r_zero, log=log):
+                why = getattr(cond, "why", None)
+                if isinstance(why, tuple) and why and why[0] in ("any", "all"):
+                    return False                      # np.any(np.imag(v) != 0): v is real
+                parts = cond_parts(cond)
+                if parts is None:
+                    return None
+                op, lhs, rhs = parts
+                log.append((op, lhs, rhs))
+                n_eq = sum(1 for o, _, _ in log if o in ("eq", "ne"))
+                if op == "eq":
+                    return alpha_zero if n_eq == 1 else r_zero
+                if op == "ne":
+                    return (not alpha_zero) if n_eq == 1 else (not r_zero)
+                return None
+            it, d = new_interp(ctx, chooser=chooser)
+            a = sym_quat("a", (k,))
+            v = mk((k,), "real")
+            v[0] = Poly.const(1)
+            st, out = run_guarded(lambda: it.run(f_hv, [a, v]))
+            tag = f"householder_vector alpha==0:{alpha_zero} r==0:{r_zero}"
+            if alpha_zero and r_zero:
+                continue
+            if st != "ok":
+                ctx.ob(RULE, tag, False, f"fails in-domain: {out}", where=f_hv.where,
+                       construct="householder_vector fails", loc=f_hv.loc())
+                continue
+            u, zeta = out
+            alpha = sum((q.norm2() for q in a), Poly.const(0)).sqrt()
+            is_zero_u = all(SQ.lift(x).is_zero() for x in wrap(u).reshape(-1))
+            if alpha_zero:
+                ok = is_zero_u and SQ.lift(zeta).same(SQ(1))
+                ctx.ob(RULE, tag, ok, "zero input vector must give (0, 1)", where=f_hv.where,
+                       construct="householder_vector zero-vector shortcut", loc=f_hv.loc())
+                continue
+            romega = a[0]                      # sum(a * e1)
+            r = romega.norm2().sqrt()
+            zref = SQ(1) if r_zero else (romega * SQ(Poly.const(-1) / r))
+            mu = (alpha * (alpha + (Poly.const(0) if False else r))).sqrt()
+            uref = []
+            for i in range(k):
+                t = a[i] - (zref * SQ(v[i])) * SQ(alpha)
+                uref.append(SQ(*[c * mu.inverse() for c in t.c]))
+            ok = (not is_zero_u) and SQ.lift(zeta).same(zref) and all(SQ.lift(x).same(y) for x, y in zip(wrap(u).reshape(-1), uref))
+            ctx.ob(RULE, tag, ok,
+                   "the Householder vector of a non-zero column is not (a - zeta v alpha)/sqrt(alpha(alpha+r)) "
+                   "(e.g. the identity is returned when only the leading entry is zero)", where=f_hv.where,
+                   construct="householder_vector: non-zero column does not get a proper reflector", loc=f_hv.loc(),
+                   detail=short(u))
+    # householder_matrix with the vector routine summarised
+    for vzero in (False, True):
+        uu = sym_quat("u", (k,))
+        zz = SQ(*[Poly.atom(("z", p)) for p in range(4)])
+        calls = []
+
+        def s_hv(it, a, v):
+            calls.append((a, v))
+            return uu.copy(), zz
+
+        it, d = new_interp(ctx, chooser=lambda interp, node, cond: (not vzero), summaries={"decomp.tridiagonalize:householder_vector": s_hv})
+        a = sym_quat("a", (k,))
+        v = sym_real("v", (k,))
+        st, out = run_guarded(lambda: it.run(f_hm, [a, v]))
+        tag = f"householder_matrix ||v||==0:{vzero}"
+        if st != "ok":
+            ctx.ob(RULE, tag, False, f"fails: {out}", where=f_hm.where, construct="householder_matrix fails",
+                   loc=f_hm.loc())
+            continue
+        I = mk((k, k), "quat")
+        for i in range(k):
+            I[i, i] = SQ(1)
+        if vzero:
+            ok = arrays_same(out, I) and not calls
+        else:
+            zi = zz.inverse()
+            ref = mk((k, k), "quat")
+            for i in range(k):
+                for j in range(k):
+                    ref[i, j] = zi * (I[i, j] - uu[i] * uu[j].conjugate())
+            nv = sum((P(x) * P(x) for x in v), Poly.const(0)).sqrt()
+            okarg = len(calls) == 1 and arrays_same(calls[0][0], a) and all(P(x).same(P(y) / nv) for x, y in zip(wrap(calls[0][1]).reshape(-1), v))
+            ok = okarg and arrays_same(out, ref)
+        ctx.ob(RULE, tag, ok, "H is not (1/zeta)(I - u u^H) of the vector built from (a, v/||v||) / identity for a zero target",
+               where=f_hm.where, construct="householder_matrix formula", loc=f_hm.loc())
+    ctx.require_instances(RULE, 4)
